@@ -19,6 +19,8 @@ SIG = {
     # FIPS 180-4 SHA-512 and FIPS 202 SHAKE256 (first n octets of the output): values uninterpreted (C03)
     'sha512': {'sort': 'bytes', 'uf': True, 'facts': ['len(result) == 64']},
     'shake256': {'sort': 'bytes', 'uf': True, 'facts': ['len(result) == n']},
+    # result sorts of functions that are opaque in the proofs that do not need their definition
+    'scalar_of_seed': 'int[nat]', 'low_order_u': 'bool',
 }
 
 
@@ -160,21 +162,42 @@ def is_montgomery(cid):
 
 
 # ====================================================================================================== secret scalars
+def setbyte(b, i, v):
+    """the octet string b with its i-th octet replaced by v"""
+    return b[:i] + bytes([v]) + b[i + 1:]
+
+
 def prune25519(h):
     """RFC 8032 5.1.5 step 2 / RFC 7748 5 decodeScalar25519 on a 32-octet string: clear the lowest three bits of the first
     octet, clear the highest bit of the last octet, set the second highest bit of the last octet"""
-    return bytes([h[0] & 0xF8]) + h[1:31] + bytes([(h[31] & 0x7F) | 0x40])
+    h1 = setbyte(h, 0, h[0] & 0xF8)
+    return setbyte(h1, 31, (h1[31] & 0x7F) | 0x40)
 
 
 def prune_ed448(h):
     """RFC 8032 5.2.5 step 2 on a 57-octet string: clear the two least significant bits of the first octet, clear all eight
     bits of the last octet, set the highest bit of the second to last octet"""
-    return bytes([h[0] & 0xFC]) + h[1:55] + bytes([h[55] | 0x80]) + bytes([0])
+    h1 = setbyte(h, 0, h[0] & 0xFC)
+    h2 = setbyte(h1, 55, h1[55] | 0x80)
+    return setbyte(h2, 56, 0)
 
 
 def prune_x448(k):
     """RFC 7748 5 decodeScalar448 on a 56-octet string: k[0] &= 252; k[55] |= 128"""
-    return bytes([k[0] & 0xFC]) + k[1:55] + bytes([k[55] | 0x80])
+    k1 = setbyte(k, 0, k[0] & 0xFC)
+    return setbyte(k1, 55, k1[55] | 0x80)
+
+
+def scalar_of_seed(cid, seed):
+    """the secret scalar a private seed decodes to: RFC 8032 5.1.5 steps 1-3 (Ed25519: SHA-512, prune, little endian),
+    5.2.5 steps 1-3 (Ed448: SHAKE256(seed, 114), prune the first 57 octets), RFC 7748 5 decodeScalar25519 / decodeScalar448"""
+    if cid == 6:
+        return le(prune25519(sha512(seed)[:32]))
+    if cid == 7:
+        return le(prune_ed448(shake256(seed, 114)[:57]))
+    if cid == 8:
+        return le(prune25519(seed))
+    return le(prune_x448(seed))
 
 
 def seed_len(cid):
